@@ -25,6 +25,11 @@ vars == <<c, upos, pos, errs, nops, cur, last, pst, cst, hist>>
 ViewNoHist == <<c, upos, pos, errs, nops, cur, last, pst, cst>>
 
 Big == 65536
+\* Variants "live" (= "fixed") and "spin" (readall does not leave its loop on a zero-byte read)
+\* are for the liveness configs: the bookkeeping of underlying calls / history is switched off
+\* there, so that the state space is finite without any bound on the loops.
+Track == Variant \notin {"live", "spin"}
+Ev(evs) == IF Track THEN evs ELSE <<>>
 IdleRec == [op |-> "idle", n |-> 0, acc |-> <<>>, done |-> <<>>, cuts |-> <<>>, evs |-> <<>>]
 Idle == cur.op = "idle"
 NoLine == [op |-> "none"]
@@ -59,7 +64,7 @@ RI(size, mv) ==
                 THEN {[ev |-> << <<m, 0 - 1>> >>, ret |-> "CD", k |-> 0, dup |-> 0, derr |-> 1, grow |-> 0]}
                 ELSE {})
 
-Fin(ln) == /\ last' = ln /\ pst' = cst /\ cst' = OpNext(c, cst, ln) /\ hist' = Append(hist, ln)
+Fin(ln) == /\ last' = ln /\ pst' = cst /\ cst' = OpNext(c, cst, ln) /\ hist' = IF Track THEN Append(hist, ln) ELSE hist
            /\ cur' = IdleRec /\ nops' = nops + 1
 Cont(nc) == cur' = nc /\ UNCHANGED <<last, pst, cst, hist, nops>>
 Env(o) == pos' = pos + o.k /\ upos' = upos + o.dup /\ errs' = errs + o.derr /\ c' = c
@@ -77,10 +82,10 @@ Single(op, n) ==
        /\ LET into == op # "read"
               rb   == Handed(o)
           IN IF o.ret = "ok"
-             THEN Fin(MkLine(op, n, o.ev, "bytes", rb, "", <<>>,
+             THEN Fin(MkLine(op, n, Ev(o.ev), "bytes", rb, "", <<>>,
                              IF into THEN rb \o Rep(0, o.grow) \o Rep(FILL, n - o.k) ELSE <<>>,
                              IF into THEN o.k ELSE 0 - 1, pos + o.k))
-             ELSE Fin(MkLine(op, n, o.ev, "exc", <<>>, ExcName(o.ret), <<>>,
+             ELSE Fin(MkLine(op, n, Ev(o.ev), "exc", <<>>, ExcName(o.ret), <<>>,
                              IF into THEN Rep(FILL, n) ELSE <<>>, 0 - 1, pos + o.k))
 
 Start(op, n) ==
@@ -104,10 +109,12 @@ Step ==
   /\ IF cur.op \in {"readall", "exhaust"}
      THEN \E o \in RI(Big, FALSE) :
             /\ Env(o)
-            /\ LET evs == cur.evs \o o.ev
+            /\ LET evs == Ev(cur.evs \o o.ev)
                    acc == cur.acc \o Handed(o)
                    p   == pos + o.k
                IN IF o.ret # "ok" THEN Fin(ExcLine(cur.op, cur.n, evs, o.ret, p))
+                  ELSE IF o.k = 0 /\ Variant = "spin"                                         \* broken: no break
+                       THEN Cont([cur EXCEPT !.cuts = IF @ = <<>> THEN <<0>> ELSE <<>>])
                   ELSE IF o.k = 0 THEN Fin(BytesLine(cur.op, cur.n, evs, acc, <<>>, p))      \* break
                   ELSE IF p >= c.limit
                        THEN (IF c.is_max /\ Variant # "trunc" THEN Fin(ExcLine(cur.op, cur.n, evs, "TL", p))
@@ -115,7 +122,7 @@ Step ==
                   ELSE Cont([cur EXCEPT !.acc = acc, !.evs = evs])
      ELSE \E o \in RI(1, FALSE) :                                       \* IOBase.readline: read(1) loop
             /\ Env(o)
-            /\ LET evs == cur.evs \o o.ev
+            /\ LET evs == Ev(cur.evs \o o.ev)
                    acc == cur.acc \o Handed(o)
                    p   == pos + o.k
                IN IF o.ret # "ok" THEN Fin(ExcLine(cur.op, cur.n, evs, o.ret, p))
@@ -135,6 +142,12 @@ Contract      == last.op = "none" \/ OpVerdict(c, pst, last) = "ok"
 NoOverReadInv == upos <= c.limit /\ pos <= c.limit
 PosEqualsUpos == pos = upos
 LoopBound     == Len(cur.evs) <= c.limit + 2          \* every loop iteration advances or exits
+
+\* liveness: every started read loop (readall, exhaust, readline, iteration, readlines) terminates
+\* under weak fairness of the loop step, whatever the environment answers (>= 1 byte while data is
+\* left, end of input, OSError).  Checked without any state constraint.
+LiveSpec   == Init /\ [][Next]_vars /\ WF_vars(Step)
+Terminates == [](~Idle => <>Idle)
 
 \* spec -> code: the behaviours (scenario + complete call history incl. environment choices)
 ExportHist == (Idle /\ nops = MaxOps) => PrintT(ToJson([c |-> c, hist |-> hist]))
